@@ -110,6 +110,7 @@ pub fn check_small_enc(case: &SmallEnc, focus: Focus) -> CaseResult {
 /// 2-way cuts x copy/borrow per piece.
 pub fn enumerate_enc(ctx: &Ctx, rep: &mut Report, focus: Focus, max_len: usize) {
     let group = "small-scope-encoder";
+    crate::engine::set_group(group);
     let all = strings(&[0xFE, 0xFD, 0x00], max_len);
     let mut count = 0u64;
     let mut nontrivial = 0u64;
@@ -183,6 +184,7 @@ pub fn check_small_dec(case: &SmallDec) -> CaseResult {
 /// `max_len`, for two tiny limit pairs, with every 2-way cut and method pair.
 pub fn enumerate_dec(ctx: &Ctx, rep: &mut Report, max_len: usize) {
     let group = "small-scope-decoder";
+    crate::engine::set_group(group);
     let configs: [((usize, usize), &[u8], usize); 2] = [
         ((3, 5), &[0x00, 0x01, 0x02, 0x03, 0x04, 0x05, 0xFC, 0xFD, 0xFE], max_len),
         ((2, 3), &[0x00, 0x01, 0x02, 0x03, 0x04, 0xFD, 0xFE], max_len + 1),
